@@ -916,3 +916,440 @@ func errLostOnPath(c *Ctx, f *ssa.Function, k *ssa.Call) string {
 	})
 	return bad
 }
+
+// ---------------------------------------------------------------- R-ERR-5 / ERR-6 / ABORT-1
+
+func init() {
+	register(&Rule{
+		ID: "R-ERR-5",
+		Doc: "Errors that arrive through a channel are not lost either: for a struct received from a channel (ioResult, ioBuf) the error-typed field that is read from it is followed like a call's error " +
+			"result (R-ERR-4): on every path on which it may be non-nil it reaches a return, a field, a channel or OnError before the function returns or receives the next result. " +
+			"A collecting loop that assigns `err = res.err` for every result lets the second, successful, write overwrite the first one's failure.",
+		Props: []string{"C06", "C04"},
+		Floor: 1,
+		Run:   ruleErr5,
+	})
+	register(&Rule{
+		ID: "ERR-6",
+		Doc: "Write writes everything: in bufferedSectionWriter.Write every path from the entry to a return passes an edge on which the caller's slice is exhausted (`len(p) > 0` false, " +
+			"`n < len(p)` false, …, p being the parameter or a re-slice of it) or an edge on which an error is set (`b.err != nil`). The compaction's writer ignores the returned count, " +
+			"so a Write that stops after one buffer and a remainder silently truncates every key or value larger than two buffers.",
+		Props: []string{"C07", "C04", "C19"},
+		Floor: 1,
+		Run:   ruleErr6,
+	})
+	register(&Rule{
+		ID: "ABORT-1",
+		Doc: "An aborted merge is a failed merge: in segmentStack.mergeInto every path from the select case that received from cancelCh to a return returns a non-nil error (ErrAborted). " +
+			"A `break` there returns success with a truncated segment, which compact then publishes in a new file while scheduling the complete old file for removal.",
+		Props: []string{"C07", "C16"},
+		Floor: 1,
+		Run:   ruleAbort1,
+	})
+}
+
+func ruleErr5(c *Ctx) []*Ob {
+	o := newObs(c, "R-ERR-5")
+	for _, f := range c.Funcs {
+		if c.isHarness(f) {
+			continue
+		}
+		fn := c.fname(f)
+		eachInstr(f, func(i ssa.Instruction) {
+			var src ssa.Value
+			var fld *types.Var
+			switch x := i.(type) {
+			case *ssa.Field:
+				st, ok := x.X.Type().Underlying().(*types.Struct)
+				if !ok || !isErrorType(st.Field(x.Field).Type()) {
+					return
+				}
+				fromRecv := false
+				for _, og := range origins(x.X) {
+					if u, isU := og.(*ssa.UnOp); isU && u.Op == token.ARROW {
+						fromRecv = true
+					}
+					if e, isE := og.(*ssa.Extract); isE {
+						if _, isSel := e.Tuple.(*ssa.Select); isSel {
+							fromRecv = true
+						}
+						if u, isU := e.Tuple.(*ssa.UnOp); isU && u.Op == token.ARROW {
+							fromRecv = true
+						}
+					}
+				}
+				if !fromRecv {
+					return
+				}
+				src, fld = x, st.Field(x.Field)
+			case *ssa.UnOp:
+				if x.Op != token.MUL {
+					return
+				}
+				fa, ok := x.X.(*ssa.FieldAddr)
+				if !ok || !isErrorType(x.Type()) {
+					return
+				}
+				cell, isCell := fa.X.(*ssa.Alloc)
+				if !isCell {
+					return
+				}
+				fromRecv := false
+				if refs := cell.Referrers(); refs != nil {
+					for _, r := range *refs {
+						if st, isSt := r.(*ssa.Store); isSt && st.Addr == ssa.Value(cell) {
+							for _, og := range origins(st.Val) {
+								if u, isU := og.(*ssa.UnOp); isU && u.Op == token.ARROW {
+									fromRecv = true
+								}
+								if e, isE := og.(*ssa.Extract); isE {
+									if _, isSel := e.Tuple.(*ssa.Select); isSel {
+										fromRecv = true
+									}
+								}
+							}
+						}
+					}
+				}
+				if !fromRecv {
+					return
+				}
+				src, fld = x, fieldAddrVar(fa)
+			default:
+				return
+			}
+			// only the first read of the field of one received value starts a walk (later reads are copies the tracker cannot see: seed them all)
+			bad := errLostFrom(c, f, i, src)
+			why := "on every path the received error is nil, or reaches a return / channel / field / OnError before the function returns or receives again"
+			if bad != "" {
+				why = bad
+			}
+			o.add(fn, "received "+fld.Name(), c.instrPos(i), bad == "", why)
+		})
+	}
+	return o.list
+}
+
+// errLostFrom: like errLostOnPath, but for an error value that is read at instruction at (a field of a received struct).
+func errLostFrom(c *Ctx, f *ssa.Function, at ssa.Instruction, v ssa.Value) string {
+	// all reads of the same field of the same struct value are copies of the same error
+	seed := []ssa.Value{v}
+	if fx, ok := v.(*ssa.Field); ok {
+		if refs := fx.X.Referrers(); refs != nil {
+			for _, r := range *refs {
+				if g, isF := r.(*ssa.Field); isF && g.Field == fx.Field && g != fx {
+					seed = append(seed, g)
+				}
+			}
+		}
+	}
+	if ld, ok := v.(*ssa.UnOp); ok {
+		if fa, isFA := ld.X.(*ssa.FieldAddr); isFA {
+			if refs := fa.X.Referrers(); refs != nil {
+				for _, r := range *refs {
+					if g, isG := r.(*ssa.FieldAddr); isG && g.Field == fa.Field {
+						for _, l := range loadsOf(g) {
+							seed = append(seed, l)
+						}
+					}
+				}
+			}
+		}
+	}
+	isSeed := map[ssa.Instruction]bool{}
+	for _, s := range seed {
+		if si, ok := s.(ssa.Instruction); ok {
+			isSeed[si] = true
+		}
+	}
+	bad := ""
+	first := true
+	walk(at2(at), walkOpts{
+		seed: seed, noInline: true,
+		visit: func(i ssa.Instruction, t *tracker) bool {
+			if bad != "" {
+				return true
+			}
+			if i == at {
+				if first {
+					first = false
+					return false
+				}
+				bad = "a path on which the received error may be non-nil comes round to the next receive (" + c.instrPos(i) + ") without the error having been returned, stored, sent or handed to OnError: the next result overwrites it"
+				return true
+			}
+			switch x := i.(type) {
+			case *ssa.Return:
+				for _, r := range x.Results {
+					if t.vals[r] {
+						return true
+					}
+				}
+				bad = "a path on which the received error may be non-nil reaches the return at " + c.instrPos(i) + " without the error: a failed write is reported as success"
+				return true
+			case *ssa.Send:
+				return t.vals[x.X]
+			case *ssa.Store:
+				if !t.vals[x.Val] {
+					return false
+				}
+				switch a := x.Addr.(type) {
+				case *ssa.FreeVar, *ssa.Global:
+					return true
+				case *ssa.FieldAddr:
+					if _, local := a.X.(*ssa.Alloc); !local {
+						return true
+					}
+				}
+			case ssa.CallInstruction:
+				cc := x.Common()
+				passes := false
+				for _, a := range cc.Args {
+					if t.vals[a] {
+						passes = true
+					}
+					if sl, isSl := a.(*ssa.Slice); isSl {
+						if arr, isA := sl.X.(*ssa.Alloc); isA {
+							if refs := arr.Referrers(); refs != nil {
+								for _, r := range *refs {
+									if ia, isIA := r.(*ssa.IndexAddr); isIA && t.cells[ia] {
+										passes = true
+									}
+								}
+							}
+						}
+					}
+				}
+				if !passes {
+					return false
+				}
+				if sf := cc.StaticCallee(); sf != nil {
+					if sf.Pkg == c.Moss && loggingCallees[c.fname(sf)] {
+						return false
+					}
+					if isStaticCall(x, "fmt", "Errorf") {
+						if val, ok := x.(*ssa.Call); ok {
+							t.vals[val] = true
+						}
+						return false
+					}
+					if isStaticCall(x, "fmt", "Sprintf") || isStaticCall(x, "fmt", "Printf") {
+						return false
+					}
+					return true
+				}
+				return true
+			}
+			return false
+		},
+		edge: func(from, to *ssa.BasicBlock, label string, cond ssa.Value, onTrue bool, t *tracker) bool {
+			return bad != "" || label == "nil"
+		},
+	})
+	return bad
+}
+
+func at2(i ssa.Instruction) point { return point{i.Block(), instrIndex(i)} }
+
+func ruleErr6(c *Ctx) []*Ob {
+	o := newObs(c, "ERR-6")
+	f := c.Fn("(*bufferedSectionWriter).Write")
+	fn := c.fname(f)
+	fErr := c.Field("bufferedSectionWriter", "err")
+	var p *ssa.Parameter
+	for _, q := range f.Params {
+		if _, isSlice := q.Type().Underlying().(*types.Slice); isSlice {
+			p = q
+		}
+	}
+	if p == nil {
+		o.add(fn, "parameter p", c.pos(f.Pos()), false, "anchor lost: Write has no slice parameter")
+		return o.list
+	}
+	fromP := func(v ssa.Value) bool {
+		found := false
+		var rec func(v ssa.Value, d int)
+		seen := map[ssa.Value]bool{}
+		rec = func(v ssa.Value, d int) {
+			if seen[v] || d > 8 || found {
+				return
+			}
+			seen[v] = true
+			for _, og := range origins(v) {
+				if og == ssa.Value(p) {
+					found = true
+					return
+				}
+				if sl, ok := og.(*ssa.Slice); ok {
+					rec(sl.X, d+1)
+				}
+				if ph, ok := og.(*ssa.Phi); ok {
+					for _, e := range ph.Edges {
+						rec(e, d+1)
+					}
+				}
+			}
+		}
+		rec(v, 0)
+		return found
+	}
+	lenOfP := func(v ssa.Value) bool {
+		call, ok := v.(*ssa.Call)
+		if !ok || len(call.Call.Args) != 1 {
+			return false
+		}
+		b, isB := call.Call.Value.(*ssa.Builtin)
+		return isB && b.Name() == "len" && fromP(call.Call.Args[0])
+	}
+	done := func(from, to *ssa.BasicBlock, cond ssa.Value, onTrue bool) bool {
+		// an error is set
+		if r := nilFieldEdge(fErr, false)(from, to, cond, onTrue); r {
+			return true
+		}
+		b, ok := cond.(*ssa.BinOp)
+		if !ok {
+			return false
+		}
+		// normalise to  X OP len(p)  or  len(p) OP X
+		switch {
+		case lenOfP(b.X):
+			// len(p) > 0 false ; len(p) == 0 true ; len(p) <= n true ; len(p) > n false
+			switch b.Op {
+			case token.GTR:
+				return !onTrue
+			case token.LEQ, token.EQL:
+				return onTrue
+			case token.NEQ:
+				return !onTrue && isZeroConst(b.Y)
+			}
+		case lenOfP(b.Y):
+			// n < len(p) false ; n >= len(p) true ; n == len(p) true
+			switch b.Op {
+			case token.LSS:
+				return !onTrue
+			case token.GEQ, token.EQL:
+				return onTrue
+			}
+		}
+		return false
+	}
+	n := 0
+	eachInstr(f, func(i ssa.Instruction) {
+		r, ok := i.(*ssa.Return)
+		if !ok {
+			return
+		}
+		if len(r.Results) > 0 && isAnyGlobalLoad(r.Results[len(r.Results)-1]) {
+			return // refuses the request with a sentinel error (io.ErrShortBuffer)
+		}
+		n++
+		okk := mustPrecede(f, i, neverInstr, done)
+		why := "returns only when the caller's slice is exhausted or an error is recorded"
+		if !okk {
+			why = "Write can return on a path that neither exhausted the caller's slice nor recorded an error: whatever did not fit into the buffer(s) it filled is dropped - the compactor ignores the byte count, so a key or value larger than two compaction buffers is truncated in the compacted file"
+		}
+		o.add(fn, "return", c.instrPos(i), okk, why)
+	})
+	if n == 0 {
+		o.add(fn, "return", c.pos(f.Pos()), false, "anchor lost")
+	}
+	return o.list
+}
+
+func ruleAbort1(c *Ctx) []*Ob {
+	o := newObs(c, "ABORT-1")
+	f := c.Fn("(*segmentStack).mergeInto")
+	fn := c.fname(f)
+	cancel := paramNamed(f, "cancelCh")
+	if cancel == nil {
+		o.add(fn, "parameter cancelCh", c.pos(f.Pos()), false, "anchor lost: mergeInto has no cancelCh parameter")
+		return o.list
+	}
+	n := 0
+	eachInstr(f, func(i ssa.Instruction) {
+		sel, ok := i.(*ssa.Select)
+		if !ok {
+			return
+		}
+		for k, st := range sel.States {
+			if st.Dir != types.RecvOnly || !sameValue(st.Chan, cancel) {
+				continue
+			}
+			n++
+			// the block taken when index == k
+			var idx ssa.Value
+			if refs := sel.Referrers(); refs != nil {
+				for _, r := range *refs {
+					if e, isE := r.(*ssa.Extract); isE && e.Index == 0 {
+						idx = e
+					}
+				}
+			}
+			var start *ssa.BasicBlock
+			if idx != nil {
+				if refs := idx.Referrers(); refs != nil {
+					for _, r := range *refs {
+						b, isB := r.(*ssa.BinOp)
+						if !isB || b.Op != token.EQL || !isConstInt(b.Y, int64(k)) {
+							continue
+						}
+						if rr := b.Referrers(); rr != nil {
+							for _, u := range *rr {
+								if iff, isIf := u.(*ssa.If); isIf {
+									start = iff.Block().Succs[0]
+								}
+							}
+						}
+					}
+				}
+			}
+			if start == nil {
+				o.add(fn, "case <-cancelCh", c.instrPos(i), false, "undecided: the branch taken when cancelCh is ready was not found")
+				continue
+			}
+			bad := ""
+			// with a defer in the function the results are spilled into cells: `return nil` is a store of nil into the error cell
+			errCells := map[ssa.Value]bool{}
+			eachInstr(f, func(q ssa.Instruction) {
+				if r, isR := q.(*ssa.Return); isR && len(r.Results) > 0 {
+					if ld, isLd := r.Results[len(r.Results)-1].(*ssa.UnOp); isLd && ld.Op == token.MUL {
+						if a, isA := ld.X.(*ssa.Alloc); isA {
+							errCells[a] = true
+						}
+					}
+				}
+			})
+			walk(point{start, 0}, walkOpts{noInline: true, visit: func(j ssa.Instruction, t *tracker) bool {
+				if bad != "" {
+					return true
+				}
+				if st, isSt := j.(*ssa.Store); isSt && errCells[st.Addr] {
+					if isNilConst(st.Val) {
+						bad = c.instrPos(j)
+					}
+					return true // the function's result is decided here
+				}
+				if r, isR := j.(*ssa.Return); isR {
+					if isNilConst(r.Results[len(r.Results)-1]) {
+						bad = c.instrPos(j)
+					}
+					return true
+				}
+				if j == ssa.Instruction(sel) {
+					bad = c.instrPos(j) + " (the loop goes on)"
+					return true
+				}
+				return false
+			}})
+			why := "a ready cancelCh leads to an error return"
+			if bad != "" {
+				why = "after cancelCh was found ready a path reaches " + bad + " without an error: the aborted merge reports success, its truncated output is published by compact in a new file and the complete old file is scheduled for removal"
+			}
+			o.add(fn, "case <-cancelCh", c.instrPos(i), bad == "", why)
+		}
+	})
+	if n == 0 {
+		o.add(fn, "case <-cancelCh", c.pos(f.Pos()), false, "anchor lost: mergeInto no longer polls cancelCh")
+	}
+	return o.list
+}
